@@ -393,7 +393,18 @@ def collect(dassh, label, case, d, temps=3):
     """All probes of one scenario: every region of every distinct assembly
     and the gap, at the reactor-chosen step."""
     inp, r = cases.build(dassh, case, d)
-    dz = float(r.req_dz)
+    if case.get('_near_planes'):
+        # requested planes a little more than a whole number of steps after
+        # a boundary: the step that lands on them must not be stretched
+        c2 = copy.deepcopy(case)
+        q = float(r.req_dz)
+        b = [float(x) for x in r.axial_bnds[:-1]]
+        c2.setdefault('setup', {})['axial_plane'] = [
+            round(b[i % len(b)] + (n + f) * q, 9)
+            for i, (n, f) in enumerate(((3, 0.04), (5, 0.08), (8, 0.55)))]
+        inp, r = cases.build(dassh, c2, d + '-np')
+    # the steps actually marched (all equal to the selected step, or shorter)
+    dz = float(np.max(r.dz))
     out = []
     Tin = float(r.inlet_temp)
     seen = set()
@@ -455,6 +466,10 @@ def probe_cases(rng, tier):
     lab.append(('7-one-type-flows', scenarios.make_core(
         rng, {'A': A1}, [(r_, p_, 'A') for (r_, p_) in p7], fl,
         gap_model='flow', bypass_fraction=0.25)))
+    for k in ('rod3-flowgap', 'rod2-adiabatic'):
+        c = copy.deepcopy(sl[k])
+        c['_near_planes'] = True
+        lab.append((k + '-near-planes', c))
     # temperature-dependent coolant
     c = copy.deepcopy(sl['rod3-flowgap'])
     c['coolant'] = 'sodium'
